@@ -31,13 +31,20 @@ class Service(object):
         self.calls = []
         self.reply = (200, 'empty')
 
-    def post(self, url, data=None, headers=None, timeout=None, **kw):
-        self.calls.append({'url': url, 'data': data, 'headers': dict(headers or {}), 'kw': sorted(kw)})
+    def send(self, adapter, request, **kw):
+        """Stands in for HTTPAdapter.send: whatever way the library calls requests (post, request, a Session), the prepared
+        request ends up here; the reply is a real requests.Response."""
+        body = request.body
+        if isinstance(body, bytes):
+            body = body.decode('utf-8', 'replace')
+        self.calls.append({'url': request.url, 'data': body, 'headers': dict(request.headers or {}), 'method': request.method})
         r = self.requests.models.Response()
         r.status_code = self.reply[0]
         r._content = BODIES[self.reply[1]].encode('utf-8')
         r.encoding = 'utf-8'
-        r.url = url
+        r.url = request.url
+        r.request = request
+        r.reason = 'stub'
         return r
 
 
@@ -171,8 +178,8 @@ def run(chk):
     if len(rows) < 6000:
         raise core.MachineryError('only %d transitions' % len(rows))
     svc = Service(requests)
-    old_post = auth.requests.post
-    auth.requests.post = svc.post
+    old_send = requests.adapters.HTTPAdapter.send
+    requests.adapters.HTTPAdapter.send = lambda adapter, request, **kw: svc.send(adapter, request, **kw)
     try:
         for i, row in enumerate(rows):
             tok = make_token(auth, row['tok'])
@@ -233,11 +240,12 @@ def run(chk):
             chk.traces += 1
             chk.case(('seq', j))
     finally:
-        auth.requests.post = old_post
+        requests.adapters.HTTPAdapter.send = old_send
     chk.extra['transitions'] = len(rows)
     chk.extra['unconstrained_transitions'] = sum(1 for row in rows if row['out'] == 'any')
-    chk.assumptions += ['the service is a stand-in inside the check process: requests.post is replaced by a recorder that returns real '
-                        'requests.Response objects (status, body), so request encoding up to the post() call and response parsing are real',
+    chk.assumptions += ['the service is a stand-in inside the check process: the transport adapter of requests (HTTPAdapter.send) is replaced by a '
+                        'recorder that returns real requests.Response objects (status, body), so request construction and preparation and '
+                        'response parsing are real, whichever requests API the library uses',
                         'join payload: selectedProfile must carry the stored profile id (string or {id, name} object)',
                         'combinations outside the property (200 with a non-result body, 204 to authenticate/refresh/sign_out) are recorded, not judged']
     return chk.finish(
